@@ -8,28 +8,42 @@ import signal
 
 import dxfparse
 from gen.dochist import Runner, gen_history, gen_rich, hx
+from props import c04_version
 
 ID = "C04"
 LEAN_MODULES = ["EzdxfVerif.Props.C04"]
-DRIVER_DEPS = ["EzdxfVerif.Model.Doc", "Drivers.Proto"]
+DRIVER_DEPS = ["EzdxfVerif.Model.Doc", "EzdxfVerif.Model.Audit", "Drivers.Proto"]
 RULE = (
-    "correspondence: after generated API histories (model operations, R2000..R2018) the REAL written file is parsed by "
-    "the harness-owned parser and its skeleton (per BLOCK_RECORD in table order the entity handles between BLOCK and "
-    "ENDBLK; the ENTITIES handles in order; $HANDSEED) is compared with the Lean writeFile of the model state reached "
-    "by the same history. oracle: rich histories (linked entities, attribs, groups, extension dictionaries, XDATA, "
-    "reactors, explode, copies, audit, save+reload) x 7 DXF versions x {ASCII, binary}: harness-owned structural "
-    "validator (sections/tables complete and ordered, unique handles < $HANDSEED, owners/reactors/xdict/dictionary "
-    "entries/layout<->block-record links/SEQEND/block references resolve, required table and CLASS entries, version "
-    "gates for entity types and header variables) + no dead entity written + every live linked entity written exactly "
-    "once. non-trivial = history with at least one mutation besides creation; distinct by hash of the history seed."
+    "regenerate: Gen/DocVersionTables.lean from the live registry and the AST (MIN_DXF_VERSION_FOR_EXPORT of all registered "
+    "types, HEADER_VAR_MAP ranges and priorities, CLASS_DEFINITIONS, REQUIRED_CLASSES, the companion-class blocks of "
+    "add_required_classes, the version guard of the custom-property fall-back, presence of the three export gates). "
+    "correspondence X1: after generated API histories (all 29 model operations incl. linked parents, explode, audit, "
+    "table entries, groups; R2000..R2018) the REAL written file is parsed by the harness-owned parser and its skeleton "
+    "(per BLOCK_RECORD in table order the entity handles between BLOCK and ENDBLK; the ENTITIES handles in order; per "
+    "GROUP object its member handles; $HANDSEED) is compared with the Lean writeFile of the model state reached by the "
+    "same history. correspondence X2: documents with many entity/object types x 7 versions: header variable names in "
+    "file order, custom properties written or not, CLASS names, entity types that pass the gate vs the Lean version "
+    "model. oracle: rich histories (linked entities, attribs, groups, extension dictionaries, XDATA, reactors, explode, "
+    "copies, audit, save+reload) x 7 DXF versions x {ASCII, binary}: harness-owned structural validator (sections/tables "
+    "complete and ordered, unique handles < $HANDSEED, owners/reactors/xdict/dictionary entries/layout<->block-record "
+    "links/SEQEND/block references resolve, required table and CLASS entries, version gates for entity types and "
+    "header variables) + no dead entity written + every live linked entity written exactly once; O3: every named object "
+    "kind x {delete, rename, remove} through every case variant of its name, then write + validate; O4: independent "
+    "table of type / header-variable ages on files of all versions. non-trivial = history with at least one mutation "
+    "besides creation; distinct by hash of the history seed."
 )
 TRUSTED_BASE = [
     "harness/dxfparse.py (independent ASCII/binary DXF reader and validator, ~400 lines)",
-    "the model covers the handle/ownership skeleton of the file (Model/Doc.lean writeFile); tag-level content of records, tables and objects is validated on the real output only",
-    "version tables (MIN_DXF_VERSION_FOR_EXPORT, header variable mindxf, REQUIRED_CLASSES) are read from ezdxf itself",
+    "the model covers the handle/ownership skeleton of the file (Model/Doc.lean writeFile: BLOCKS, ENTITIES, GROUP members, $HANDSEED) and the version gates (Model/DocVersion.lean); tag-level content of records, tables and objects is validated on the real output only",
+    "version tables are regenerated from ezdxf itself; the independent part is the hand-written age table of ~45 types / header variables in harness/props/c04_version.py (theorems independent_min_respected / independent_hdr_respected)",
+    "preprocess_export() of individual entity classes may drop an entity that passes the version gate (empty MESH, ACIS entities without data): such types are not compared in X2",
 ]
-ASSUMPTIONS = ["histories stay within documented use (add_entity only for unlinked entities, safe block deletion, no removal of layers in use)"]
-OPEN = ["ownership consistency (owner tag = containing block record) is checked by the oracle on real files, not proved on the model"]
+ASSUMPTIONS = ["histories stay within documented use (add_entity only for unlinked entities, safe block deletion, no removal of layers or required table entries in use)",
+               "block references only in layouts (an INSERT inside its own block is a cyclic definition)"]
+OPEN = ["owner tag of sub-entities, reactors, extension dictionaries, dictionary entries, LAYOUT<->BLOCK_RECORD links, SEQEND presence: validated by dxfparse on real files, not proved on the model",
+        "required table entries: proved present after save+reload (required_entries_after_reload) and kept by every history that does not remove one of them (required_entries_kept); root dictionary entries are oracle only",
+        "version gate of individual TAGS inside an entity (dxfns._export_group_codes) is C01's schema model, here oracle only",
+        "the order of the CLASS entries of the types in use follows the iteration order of a Python set (not deterministic across runs; compared as sets)"]
 
 VERSIONS = {"R12": "AC1009", "R2000": "AC1015", "R2004": "AC1018", "R2007": "AC1021", "R2010": "AC1024",
             "R2013": "AC1027", "R2018": "AC1032"}
@@ -85,10 +99,40 @@ def skeleton(tags):
     for j, (c, v) in enumerate(pre):
         if c == 9 and v == "$HANDSEED":
             hv = int(pre[j + 1][1], 16)
-    return blocks, ents, hv
+    groups = []
+    for r in sec.get("OBJECTS", []):
+        if dxfparse.rec_type(r) == "GROUP":
+            groups.append((int(dxfparse.rec_handle(r), 16), [int(v, 16) for c, v in r if c == 340]))
+    return blocks, ents, hv, sorted(groups)
+
+
+def regenerate(ctx):
+    # Gen/DocVersionTables.lean: entity min versions, header variable ranges, class tables, gate guards (live registry + AST)
+    c04_version.regenerate(ctx)
+
+
+def layout_pointer_problems(tags):
+    """every handle stored in a LAYOUT object (330 owner / block record, 331 last active viewport, 333 shade plot,
+    345/346 UCS) resolves to an object present in the file"""
+    recs = dxfparse.records(tags)
+    handles = set()
+    for r in recs:
+        h = dxfparse.rec_handle(r)
+        if h:
+            handles.add(h.upper())
+    out = []
+    for r in recs:
+        if dxfparse.rec_type(r) != "LAYOUT":
+            continue
+        me = dxfparse.rec_handle(r)
+        for c, v in r:
+            if c in (330, 331, 333, 345, 346) and v not in ("0", "") and v.upper() not in handles:
+                out.append(f"LAYOUT #{me} in OBJECTS: pointer ({c}) {v} not in file")
+    return out
 
 
 def correspond(ctx):
+    c04_version.correspond(ctx)
     rng = ctx.rng("c04")
     cases = []
     for i in range(ctx.n(200, 3000)):
@@ -111,8 +155,9 @@ def correspond(ctx):
             lines.append((req, None))
         s = io.StringIO()
         r.doc.write(s)
-        blocks, ents, seed_after = skeleton(dxfparse.parse_ascii(s.getvalue()))
-        impl = " ".join(f"{k}:{','.join(map(str, hs))}" for k, hs in blocks) + ";" + ",".join(map(str, ents))
+        blocks, ents, seed_after, groups = skeleton(dxfparse.parse_ascii(s.getvalue()))
+        impl = " ".join(f"{k}:{','.join(map(str, hs))}" for k, hs in blocks) + ";" + ",".join(map(str, ents)) + \
+            ";" + " ".join(f"{g}:{','.join(map(str, ms))}" for g, ms in groups)
         for req, _ in lines:
             cases.append((req, None, False))
         cases.append(("dump", (impl, seed_after), mutated))
@@ -145,7 +190,7 @@ def write_and_check(ctx, r: Runner, fmt: str, rep: dict, tabs):
         b = io.BytesIO()
         doc.write(b, fmt="bin")
         tags = dxfparse.parse_binary(b.getvalue())
-    problems = dxfparse.check_file(tags, version, minv, req, hmin)
+    problems = dxfparse.check_file(tags, version, minv, req, hmin) + layout_pointer_problems(tags)
     # F20: the extension dictionary of an entity that was unlinked (and is gone after a reload) stays in OBJECTS
     unlinked_xd = {"%X" % h for h, e in r.ents.items()
                    if (not e.is_alive) or (e.dxf.owner is None and e.has_extension_dict)}
@@ -204,11 +249,174 @@ def probe_xdict_replace(ctx, tabs):
         ctx.fail("xdict-replace-orphan/R2010", f"add_xrecord twice on one key, then delete the owner entity: {p}", {"op": "probe-xdict-replace"})
 
 
+def variants(name):
+    return list(dict.fromkeys([name, name.upper(), name.lower(), name.swapcase()]))
+
+
+def case_variant_sweep(ctx, tabs):
+    """O3: every named object kind x {delete, rename} addressed through every case variant of its name (all name
+    lookups of the API are case-insensitive, some of the underlying dictionaries are not), then write + validate"""
+    todo = []
+    for v in variants("Details"):
+        todo.append(("layout-delete", v, lambda d, v=v: (d.layouts.new("Details"), d.layouts.delete(v))))
+        todo.append(("layout-rename", v, lambda d, v=v: (d.layouts.new("Details"), d.layouts.rename(v, "Plan"))))
+        todo.append(("layout-rename-back", v, lambda d, v=v: (d.layouts.new("Details"), d.layouts.rename(v, "Plan"), d.layouts.rename("PLAN", "Details"))))
+        todo.append(("layout-activate", v, lambda d, v=v: (d.layouts.new("Details"), d.layouts.set_active_layout(v), d.layouts.delete(v))))
+    for v in variants("Blk"):
+        todo.append(("block-delete", v, lambda d, v=v: (d.blocks.new("Blk"), d.blocks.delete_block(v))))
+        todo.append(("block-rename", v, lambda d, v=v: (d.blocks.new("Blk").add_line((0, 0), (1, 1)), d.blocks.rename_block(v, "Blk2"))))
+        todo.append(("block-insert", v, lambda d, v=v: (d.blocks.new("Blk").add_line((0, 0), (1, 1)), d.modelspace().add_blockref(v, (0, 0)))))
+    for v in variants("LayerX"):
+        todo.append(("layer-remove", v, lambda d, v=v: (d.layers.add("LayerX"), d.layers.remove(v))))
+    for tn in ("linetypes", "styles", "dimstyles", "appids", "ucs", "views"):
+        for v in variants("Entry"):
+            def f(d, v=v, tn=tn):
+                t = getattr(d, tn)
+                t.add("Entry", pattern=[0.2, 0.1, -0.1]) if tn == "linetypes" else (t.add("Entry", font="a.ttf") if tn == "styles" else t.add("Entry"))
+                t.remove(v)
+            todo.append((f"{tn}-remove", v, f))
+    for cn in ("groups", "materials", "mline_styles", "mleader_styles"):
+        for v in variants("Named"):
+            todo.append((f"{cn}-delete", v, lambda d, v=v, cn=cn: (getattr(d, cn).new("Named"), getattr(d, cn).delete(v))))
+    for version in VERSIONS:
+        for what, v, f in todo:
+            if version == "R12" and not (what.startswith("block") or what.startswith("layer") or what.split("-")[0] in ("linetypes", "styles", "dimstyles", "appids", "ucs", "views")):
+                continue
+            r = Runner(version)
+            rep = {"op": "case-variant", "what": what, "name": v, "version": version}
+            try:
+                f(r.doc)
+            except Exception as e:  # noqa  (a documented rejection is fine; the document must still be writable)
+                ctx.hist("O3 case variants", "rejected:" + type(e).__name__)
+            ctx.count("O3 case variants", (what, v, version), True)
+            for fmt in ("ascii",):
+                try:
+                    write_and_check(ctx, r, fmt, rep, tabs)
+                except Exception as e:  # noqa
+                    ctx.fail(f"write-raised/{version}/{fmt}/{type(e).__name__}", f"{version} {what}({v!r}): writing raised {type(e).__name__}: {e}", rep)
+
+
+def nested_block_sweep(ctx, tabs):
+    """O5: guarded block deletion x block references at every nesting position (layouts, inside another block, two
+    levels deep) x every spelling of the name, then write + validate (block references must resolve)"""
+    import ezdxf
+
+    for version in VERSIONS:
+        for where in ("msp", "psp", "outer", "deep"):
+            if version == "R12" and where == "psp":
+                continue
+            for how in ("delete_block", "delete_all_blocks", "purge"):
+                for spell in ("INNER", "inner"):
+                    r = Runner(version)
+                    doc = r.doc
+                    inner = doc.blocks.new("Inner")
+                    r.track(inner.add_line((0, 0), (1, 1)))
+                    outer = doc.blocks.new("Outer")
+                    mid = doc.blocks.new("Mid")
+                    if where == "msp":
+                        r.track(doc.modelspace().add_blockref(spell, (0, 0)))
+                    elif where == "psp":
+                        r.track(doc.layout("Layout1").add_blockref(spell, (0, 0)))
+                    elif where == "outer":
+                        r.track(outer.add_blockref(spell, (0, 0)))
+                        r.track(doc.modelspace().add_blockref("OUTER", (0, 0)))
+                    else:
+                        r.track(mid.add_blockref(spell, (0, 0)))
+                        r.track(outer.add_blockref("mid", (0, 0)))
+                        r.track(doc.modelspace().add_blockref("Outer", (0, 0)))
+                    rep = {"op": "nested-blocks", "where": where, "how": how, "version": version}
+                    try:
+                        if how == "delete_block":
+                            for n in ("INNER", "Mid", "outer", "inner"):
+                                try:
+                                    doc.blocks.delete_block(n, safe=True)
+                                except ezdxf.DXFBlockInUseError:
+                                    pass
+                                except ezdxf.DXFKeyError:
+                                    pass
+                        elif how == "delete_all_blocks":
+                            doc.blocks.delete_all_blocks()
+                        else:
+                            doc.blocks.purge() if hasattr(doc.blocks, "purge") else None
+                    except Exception as e:  # noqa
+                        ctx.fail(f"block-delete-raised/{version}/{how}/{type(e).__name__}", f"{version} {how} with a reference in {where}: {type(e).__name__}: {e}", rep)
+                    ctx.count("O5 nested block references", (version, where, how, spell), True)
+                    try:
+                        write_and_check(ctx, r, "ascii", rep, tabs)
+                    except Exception as e:  # noqa
+                        ctx.fail(f"write-raised/{version}/ascii/{type(e).__name__}", f"{version} {how} ({where}): writing raised {type(e).__name__}: {e}", rep)
+
+
+def layout_setup_sweep(ctx, tabs):
+    """O6: paperspace layout management that creates and destroys viewports (page_setup, reset_viewports, repeated,
+    across save+reload, after rename / activate / delete of other layouts), then write + validate"""
+    import ezdxf
+
+    recipes = {
+        "setup": lambda d: d.layout("Layout1").page_setup(),
+        "setup-twice": lambda d: (d.layout("Layout1").page_setup(size=(297, 210)), d.layout("Layout1").page_setup(size=(420, 297))),
+        "setup-reset": lambda d: (d.layout("Layout1").page_setup(), d.layout("Layout1").reset_viewports()),
+        "reset-twice": lambda d: (d.layout("Layout1").reset_viewports(), d.layout("Layout1").reset_viewports()),
+        "new-setup-twice": lambda d: (d.layouts.new("L2").page_setup(), d.layouts.get("l2").page_setup(size=(100, 100))),
+        "setup-rename-setup": lambda d: (d.layout("Layout1").page_setup(), d.layouts.rename("Layout1", "Renamed"), d.layouts.get("RENAMED").page_setup()),
+        "setup-activate-setup": lambda d: (d.layouts.new("L2").page_setup(), d.layouts.set_active_layout("L2"), d.layout("Layout1").page_setup(), d.layouts.get("L2").page_setup()),
+        "add-viewport-reset": lambda d: (d.layout("Layout1").add_viewport((5, 5), (4, 4), (0, 0), 10), d.layout("Layout1").reset_viewports()),
+    }
+    for version in VERSIONS:
+        if version == "R12":
+            continue
+        for name, f in recipes.items():
+            for reload_between in (False, True):
+                r = Runner(version)
+                rep = {"op": "layout-setup", "recipe": name, "reload": reload_between, "version": version}
+                try:
+                    f(r.doc)
+                    if reload_between:
+                        s = io.StringIO()
+                        r.doc.write(s)
+                        r.doc = ezdxf.read(io.StringIO(s.getvalue()))
+                        if name == "setup-rename-setup":
+                            r.doc.layouts.get("renamed").page_setup(size=(100, 100))
+                        elif name.startswith("new-") or "activate" in name:
+                            r.doc.layout("Layout1").page_setup()
+                            r.doc.layouts.get("L2").page_setup(size=(50, 50))
+                        else:
+                            f(r.doc)
+                except Exception as e:  # noqa
+                    ctx.fail(f"layout-setup-raised/{version}/{name}/{type(e).__name__}", f"{version} {name}: {type(e).__name__}: {e}", rep)
+                    continue
+                ctx.count("O6 layout setup", (version, name, reload_between), True)
+                try:
+                    write_and_check(ctx, r, "ascii", rep, tabs)
+                except Exception as e:  # noqa
+                    ctx.fail(f"write-raised/{version}/ascii/{type(e).__name__}", f"{version} {name}: writing raised {type(e).__name__}: {e}", rep)
+
+
+def probe_viewport_delete(ctx, tabs):
+    """known finding: deleting the main VIEWPORT of a paperspace layout through layout.delete_entity() leaves its
+    handle in LAYOUT.viewport_handle (331)"""
+    r = Runner("R2010")
+    lay = r.doc.layout("Layout1")
+    lay.page_setup()
+    for e in list(lay.query("VIEWPORT")):
+        lay.delete_entity(e)
+    s = io.StringIO()
+    r.doc.write(s)
+    ctx.count("O2 probes", "viewport-delete", True)
+    for p in layout_pointer_problems(dxfparse.parse_ascii(s.getvalue())):
+        ctx.fail("layout-viewport-deleted/R2010", f"page_setup(), then delete_entity() of every VIEWPORT: {p}", {"op": "probe-viewport-delete"})
+
+
 def oracle(ctx):
     signal.signal(signal.SIGALRM, _on_alarm)
     rng = ctx.rng("oracle")
     tabs = tables()
     probe_xdict_replace(ctx, tabs)
+    probe_viewport_delete(ctx, tabs)
+    case_variant_sweep(ctx, tabs)
+    nested_block_sweep(ctx, tabs)
+    layout_setup_sweep(ctx, tabs)
+    c04_version.oracle(ctx)
     for i in range(ctx.n(300, 4000)):
         seed = rng.randrange(1 << 30)
         version = list(VERSIONS)[i % 7]
@@ -268,5 +476,11 @@ def replay(ctx, rep):
         r = f["replay"]
         if r.get("op") == "rich-history":
             run_rich(ctx, r["seed"], r["version"], r["length"], tabs)
+        elif r.get("op") == "case-variant":
+            case_variant_sweep(ctx, tabs)
+        elif r.get("op") == "nested-blocks":
+            nested_block_sweep(ctx, tabs)
+        elif r.get("op") == "layout-setup":
+            layout_setup_sweep(ctx, tabs)
     bad = ctx.failures[n0:]
     return (not bad, "; ".join(x.key for x in bad) or "recorded histories pass now")
